@@ -596,6 +596,9 @@ class F:
         return bool(s != 0)
 
     def __abs__(s):
+        from . import floats
+        if floats.zero_only_site():
+            return floats.LazyAbs(s)       # the caller only tests |x| == 0: no need to fork on the sign
         return s if bool(s >= 0) else -s
 
     def sign(s):
@@ -881,6 +884,9 @@ class FC:
         return bool(s != 0)
 
     def __abs__(s):
+        from . import floats
+        if floats.zero_only_site():
+            return floats.LazyAbs(s)
         return (s.re * s.re + s.im * s.im).sqrt()
 
     def conjugate(s): return FC(s.re, -s.im)
